@@ -61,5 +61,18 @@ package controller
 //@   calls Writer.Write#3: requires string($0) == token
 //@   calls Writer.Write#4: requires string($0) == "\n"
 //@   calls fmt.Fprintf#1: requires $1 == "%s%s%s+R%s-%s%s" && $2[0] == iface(m[1]) && $2[1] == iface(m[2]) && $2[2] == iface(m[3]) && $2[3] == iface(clusterID) && $2[4] == iface(m[5][2:]) && $2[5] == iface(m[8])
+//@   # the pattern's groups partition the token: nothing of it is lost when the
+//@   # +A hint (group 5) is replaced by the +R hint
+//@   calls fmt.Fprintf#1: requires token == m[1] + m[2] + m[3] + m[5] + m[8]
 //@   calls fmt.Fprintf#2: requires $0 == hasher && $1 == "%s%s" && $2[0] == iface(m[1]) && $2[1] == iface(m[2])
 //@   calls json.Marshal#1: requires computedHash == col.PortableDataHash && (old(expectHash) == "" || old(expectHash) == col.PortableDataHash)
+
+// remoteClusterRequest: what goes to the remote is the request returned by
+// saltAuthToken for that remote - its header, and its path and query string in
+// the outgoing URL (never those of the original request, which may still carry
+// the unsalted api_token parameter).
+//@ func Handler.remoteClusterRequest property C19 safety -nil
+//@   ghost sreq *http.Request = nil
+//@   calls Handler.saltAuthToken#1: requires $0 == req && $1 == remoteID
+//@   calls Handler.saltAuthToken#1: set sreq = $r0
+//@   calls proxy.Do#1: requires $0 == sreq && $1.RawQuery == sreq.URL.RawQuery && $1.Path == sreq.URL.Path && $1.RawPath == sreq.URL.RawPath
